@@ -359,6 +359,11 @@ func (e *Env) evalIdent(name string) Val {
 			}
 		}
 	}
+	// ghost snapshot taken at an anchor
+	if gv, ok := u.ghostLocals[name]; ok {
+		gv.T = u.get(e.cur, "GL:"+name, u.varSort["GL:"+name])
+		return gv
+	}
 	// ghost variable
 	if so, ok := u.g.specs.GhostVars[name]; ok {
 		s, ty := e.sortOfName(so)
@@ -407,7 +412,7 @@ func (e *Env) objVal(o types.Object) Val {
 // typed records that a value read from the heap by a contract is well-typed.
 func (e *Env) typed(v Val) Val {
 	if v.Ty != nil && !strings.Contains(v.T.S, "q_") {
-		e.u.assumeRaw(e.u.typeFacts(e.cur, v.T, v.Ty))
+		e.u.assumeStructural(e.u.typeFacts(e.cur, v.T, v.Ty))
 	}
 	return v
 }
@@ -691,7 +696,7 @@ func (e *Env) evalQuant(x *EQuant) Val {
 		if i := strings.Index(decls[0], " "); i > 0 {
 			name = decls[0][1:i]
 		}
-		ps := selectPatterns(inner.S, name)
+		ps := u.selectPatterns(inner.S, name)
 		_ = pats
 		if len(ps) > 0 && len(ps) <= 8 {
 			var sb []string
@@ -744,6 +749,13 @@ func (e *Env) evalCall(x *ECall) Val {
 		d := u.mapDom(e.cur, v.Ty, v.T)
 		// the nil map has an empty domain
 		return Val{T: d, isDom: true, KeyTy: v.Ty.Underlying().(*types.Map).Key()}
+	case "vals":
+		// vals(m): the key -> value array of map m (meaningful at keys in dom(m))
+		v := e.eval(x.Args[0])
+		if v.Ty == nil {
+			e.fail("vals of untyped value")
+		}
+		return Val{T: u.mapVals(e.cur, v.Ty, v.T)}
 	case "fresh":
 		v := e.eval(x.Args[0])
 		return spec(And(App(SBool, ">=", v.T, u.top(e.old)), App(SBool, "<", v.T, u.top(e.cur))))
@@ -762,6 +774,17 @@ func (e *Env) evalCall(x *ECall) Val {
 	case "held":
 		lk, ref := e.evalMutex(x.Args[0])
 		return spec(Select(u.get(e.cur, lk, ArraySort(SInt, SInt)), ref))
+	case "alldeferred":
+		// alldeferred(Type.mutex): every mutex of that kind this call chain holds has its unlock deferred
+		sel, ok := x.Args[0].(*ESel)
+		if !ok {
+			e.fail("alldeferred wants Type.mutex")
+		}
+		t := e.resolveType(sel.X.exprString())
+		lk, so := u.lockKey(t, sel.Name)
+		larr := u.get(e.cur, lk, so)
+		darr := u.get(e.cur, "DU:"+lk, ArraySort(SInt, SBool))
+		return spec(Term{fmt.Sprintf("(forall ((lr Int)) (! (=> (not (= (select %s lr) 0)) (select %s lr)) :pattern ((select %s lr))))", larr.S, darr.S, larr.S), SBool})
 	case "nolocks":
 		// nolocks(Type.mutex): this call chain holds no mutex of that kind
 		sel, ok := x.Args[0].(*ESel)
@@ -1081,7 +1104,7 @@ func (e *Env) evalMutex(x Expr) (string, Term) {
 }
 
 // selectPatterns returns the distinct sub-terms "(select A v)" of body where A does not mention v.
-func selectPatterns(body, v string) []string {
+func (u *UnitGen) selectPatterns(body, v string) []string {
 	var out []string
 	seen := map[string]bool{}
 	const pfx = "(select "
@@ -1103,13 +1126,7 @@ func selectPatterns(body, v string) []string {
 		if containsToken(arr, v) {
 			continue
 		}
-		bad := false
-		for _, op := range []string{"(not ", "(or ", "(and ", "(=> ", "(= ", "(ite ", "(< ", "(<= ", "(> ", "(>= ", "(+ ", "(- ", "(* ", "(distinct ", "(forall ", "(exists "} {
-			if strings.Contains(arr, op) {
-				bad = true
-			}
-		}
-		if bad {
+		if !u.patternSafe(arr) {
 			continue
 		}
 		end := k + 1 + len(idx)
@@ -1132,4 +1149,33 @@ func containsToken(s, tok string) bool {
 		}
 	}
 	return false
+}
+
+// patternSafe: the term, after expansion of defined names, contains only applications that may
+// occur in a trigger (no boolean connectives, ite, arithmetic or quantifiers).
+func (u *UnitGen) patternSafe(t string) bool {
+	for _, op := range []string{"(not ", "(or ", "(and ", "(=> ", "(= ", "(ite ", "(< ", "(<= ", "(> ", "(>= ", "(+ ", "(- ", "(* ", "(distinct ", "(forall ", "(exists ", "(mod ", "(div "} {
+		if strings.Contains(t, op) {
+			return false
+		}
+	}
+	for _, tok := range strings.FieldsFunc(t, func(r rune) bool { return r == ' ' || r == '(' || r == ')' }) {
+		def, ok := u.defs[tok]
+		if !ok {
+			continue
+		}
+		if u.patSafe == nil {
+			u.patSafe = map[string]bool{}
+		}
+		safe, seen := u.patSafe[tok]
+		if !seen {
+			u.patSafe[tok] = false // cycle guard
+			safe = u.patternSafe(def)
+			u.patSafe[tok] = safe
+		}
+		if !safe {
+			return false
+		}
+	}
+	return true
 }
